@@ -476,6 +476,15 @@ def cached(fcn):
     return CachedFcn(fcn)
 
 
+def _automaticallyNamed(fcn):
+    """True if the UserFcn only carries the name its constructor derives from a string expression or a ``def``."""
+    if isinstance(fcn.expr, basestring):
+        return fcn.name == fcn.expr
+    if isinstance(fcn.expr, types.FunctionType):
+        return fcn.expr.__name__ != "<lambda>" and fcn.name == fcn.expr.__name__
+    return False
+
+
 def named(name, fcn):
     """Create a named, serializable version of fcn (histogrammar.util.UserFcn)
 
@@ -484,7 +493,7 @@ def named(name, fcn):
     Unlike the histogrammar.util.UserFcn constructor, this function avoids duplication (doubly wrapped objects) and
     commutes with histogrammar.util.cached and histogrammar.util.serializable (they can be applied in any order).
     """
-    if isinstance(fcn, UserFcn) and fcn.name is not None:
+    if isinstance(fcn, UserFcn) and fcn.name is not None and not _automaticallyNamed(fcn):
         raise ValueError(f"two names applied to the same function: {fcn.name} and {name}")
     if isinstance(fcn, CachedFcn):
         return CachedFcn(fcn.expr, name)
